@@ -63,12 +63,23 @@ def make_cases(tier, seed, n_random=None, maxlen=None):
             # independently seeded change C03-2
             cases.append(dict(name=name + "#ids", g=_int_terminals(g), sr=srs[i % len(srs)], rename="id", order=None,
                               maxlen=bound(tier, g, maxlen), part="all"))
+        if i < 30 or (tier != "quick" and i % 8 == 0):
+            # vocabularies whose token boundaries cannot be recovered from the concatenation: ('a','a') vs ('aa',), (1, 1) vs (11,)
+            # - a weight must be a function of the token SEQUENCE (strengthened after seeded change C03-6)
+            cases.append(dict(name=name + "#cat", g=_cat_terminals(g, ints=bool(i % 2)), sr=srs[i % len(srs)], rename="id", order=None,
+                              maxlen=bound(tier, g, maxlen), part="all"))
         if name in MAXPLUS_CORPUS or (tier != "quick" and name.startswith("rand") and n_mp < 40):
             n_mp += name.startswith("rand")
             # small units of work: a case that runs into the per-case timeout is reported undecided
             for part in ("prefix", "derivs"):
                 cases.append(dict(name=name, g=g, sr="MaxPlus", rename="id", order=None, maxlen=2, part=part))
     return cases
+
+
+def _cat_terminals(g, ints=False):
+    names = [1, 11, 111, 1111] if ints else ["a", "aa", "aaa", "aaaa"]
+    ids = {a: names[k] for k, a in enumerate(sorted(g.V))}
+    return type(g)(g.S, frozenset(ids.values()), [(w, h, tuple(ids.get(y, y) for y in b)) for w, h, b in g.rules])
 
 
 def _int_terminals(g):
